@@ -7,6 +7,18 @@ ROOT = os.path.dirname(os.path.dirname(os.path.abspath(__file__)))
 ALL = ["C%02d" % i for i in range(1, 21)]
 
 CLAIMED = {
+    "C19": dict(
+        category="other",
+        text="Decided by TLC: (i) the shape contract - MC_ShapeAlgebra derives the admissible image sizes of the stride-2/stride-2 pairs for every size 8..96, and "
+             "Trace_DeepJSCC checks every (transposed) convolution recorded by forward hooks against the size law, the end-to-end shape, bandwidth ratio, batch "
+             "size and range for the bundled architectures x sizes {16,32,48,64} (+ inadmissible) x batches {1,2,5}; (ii) gradient flow as reachability - the "
+             "autograd graph of a full DeepJSCC pipeline loss (600+ nodes) is exported and TLC computes the set reachable from the loss: every encoder parameter "
+             "and the constraint / channel outputs must be in it. Sensor: float64 directional derivatives vs central finite differences under a frozen RNG for "
+             "every analog channel and power constraint (real/complex, several shapes); TLC only applies the 0.2 % threshold.",
+        design_ref="7/C19, 8",
+        note="Agreement of autograd with finite differences is analysis and cannot be decided by an explicit-state model checker (level 'other'); Kurka2020 is "
+             "run with its native 256 filters; NOMA / Wyner-Ziv image models reuse the Tung2022-Q2 blocks and are covered through them.",
+        technique="TLA+ spec ShapeAlgebra + TLC: model checking of size arithmetic, trace validation of layer records and autograd-graph reachability; sensor gradient events"),
     "C08": dict(
         category="other",
         text="Sensor + specification: for every (constraint, target, real/complex, shape 1-D/(1,n)/(B,n)/3-D/4-D, signal family, input scale) the harness measures "
@@ -192,7 +204,7 @@ CLAIMED = {
         technique="TLA+ spec ParallelPool/Pipelines + TLC exhaustive schedules; spec->code replay and code->spec trace validation"),
 }
 
-NOT_YET = "check not built yet in this framework (see DESIGN.md section 12 build order); not claimed until it passes on the unchanged tree"
+NOT_YET = "not claimed: check not built in this framework (see DESIGN.md section 12 build order); not claimed until it passes on the unchanged tree"
 
 def main():
     checks = []
